@@ -2522,16 +2522,17 @@ class ProvDocument(ProvBundle):
             try:
                 serializer.serialize(stream, **args)
                 stream.close()
+                if hasattr(shutil, "move"):
+                    shutil.move(name, path)
+                else:
+                    shutil.copy(name, path)
+                    os.remove(name)
             except BaseException:
                 # do not leave the temporary file behind
                 stream.close()
-                os.remove(name)
+                if os.path.exists(name):
+                    os.remove(name)
                 raise
-            if hasattr(shutil, "move"):
-                shutil.move(name, path)
-            else:
-                shutil.copy(name, path)
-                os.remove(name)
 
     @staticmethod
     def deserialize(source=None, content=None, format="json", **args):
